@@ -200,8 +200,12 @@ def conformance(tier):
         fin = tr["ev"][-1]
         eoi = [e for e in tr["ev"] if e["k"] == "eoi"][-1]
         flat = []
-        for n in fin["nodes"]:
-            flat += [n["gen"], n["disc"], n["proc"], n["recv"]]
+        tsum = {}
+        for e in tr["ev"]:
+            if e["k"] == "get" and e["res"] == "item" and c["nodes"][e["n"]]["type"] == "sink":
+                tsum[e["n"]] = tsum.get(e["n"], 0) + e["t"]
+        for i, n in enumerate(fin["nodes"]):
+            flat += [n["gen"], n["disc"], n["proc"], n["recv"], tsum.get(i, 0)]
         for e in eoi["edges"]:
             flat.append(len(e["tr"]) + len(e["rd"]))
         key = ",".join(str(x) for x in flat)
